@@ -78,7 +78,7 @@ def _guard(fn):
 
 def _unchanged(name, pre, self):
     post = sh.snap(self.data)
-    if not sh.same(post, pre['data']):
+    if not sh.same_rows(post, pre['data']):
         _v(f'{name}-modifies-table', f'{name} is read-only but the table changed: {sh.diff(post, pre["data"])}')
 
 
@@ -99,9 +99,14 @@ def post_remove(self, expression, OLD, result):
     if mask is not None:
         _c('remove_with_reference_condition')
         want = sh.after_remove(pre, mask)
+        pcol = OLD.pre['panel']
+        if pcol is not None and pcol in want['cols'] and want['rows']:
+            # panel data: the rows that are left stay grouped by individual (original order inside an individual)
+            want = sh.after_panel(want, pcol)[0]
         nz = sum(1 for m in mask if m)
-        if not sh.same(post, want):
-            if sh.has_duplicate_labels(pre) and sh.same(post, sh.after_remove_by_label(pre, mask)):
+        # surviving rows are judged by their values and order; index labels are not part of the property
+        if not sh.same_rows(post, want):
+            if sh.has_duplicate_labels(pre) and sh.same_rows(post, sh.after_remove_by_label(pre, mask)):
                 _v('remove-deletes-every-row-sharing-an-index-label',
                    f'{deleted} rows deleted, condition non-zero on {nz}: rows whose index label equals the label of a removed row '
                    f'were deleted although their condition is zero; {sh.diff(post, want)}', labels=pre['labels'][:40])
@@ -111,8 +116,12 @@ def post_remove(self, expression, OLD, result):
         if self.excludedData != nz:
             _v('remove-reported-number-differs', f'excludedData={self.excludedData}, condition non-zero on {nz} rows in this call')
     else:
-        if not sh.is_subsequence(sh.keys_of(post), sh.keys_of(pre)):
+        from collections import Counter
+
+        if OLD.pre['panel'] is None and not sh.is_subsequence(sh.keys_of(post, False), sh.keys_of(pre, False)):
             _v('remove-rows-differ-from-condition', 'rows after remove are not an order-preserving subset of the rows before')
+        elif Counter(sh.keys_of(post, False)) - Counter(sh.keys_of(pre, False)):
+            _v('remove-rows-differ-from-condition', 'rows after remove are not a subset of the rows before')
         if self.excludedData != deleted and not sh.has_duplicate_labels(pre):
             _v('remove-reported-number-differs', f'excludedData={self.excludedData}, {deleted} rows deleted in this call')
 
@@ -143,7 +152,7 @@ def post_add_column(self, expression, column, OLD, result):
         _v('add-column-columns-differ', f'columns after {post["cols"]}, expected {pre["cols"] + [column]}')
         return
     before = {'labels': post['labels'], 'cols': pre['cols'], 'rows': [r[:-1] for r in post['rows']]}
-    if not sh.same(before, pre):
+    if not sh.same_rows(before, pre):
         _v('add-column-modifies-other-cells', sh.diff(before, pre))
     stored = [r[-1] for r in post['rows']]
     try:
@@ -152,7 +161,7 @@ def post_add_column(self, expression, column, OLD, result):
     except Exception as e:
         returned, rlabels = None, None
         _v('add-column-return-value', f'returned object {type(result).__name__} is not the added column: {e}')
-    if returned is not None and (returned != stored or rlabels != post['labels']):
+    if returned is not None and returned != stored:
         _v('add-column-return-value', f'returned column {returned[:8]} (labels {rlabels[:8]}) differs from the stored one {stored[:8]} (labels {post["labels"][:8]})')
     if exp is not None:
         _c('add_column_with_reference_values')
@@ -188,12 +197,12 @@ def post_scale(self, column, scale, OLD, result):
     _c('scale_column')
     pre = OLD.pre['data']
     post = sh.snap(self.data)
-    if post['cols'] != pre['cols'] or post['labels'] != pre['labels']:
+    if post['cols'] != pre['cols'] or len(post['rows']) != len(pre['rows']):
         _v('scale-changes-shape', sh.diff(post, pre))
         return
     j = pre['cols'].index(column)
     want = {'labels': pre['labels'], 'cols': pre['cols'], 'rows': [r[:j] + (r[j] * scale,) + r[j + 1:] for r in pre['rows']]}
-    if not sh.same(post, want):
+    if not sh.same_rows(post, want):
         others = any(x[:j] + x[j + 1:] != y[:j] + y[j + 1:] for x, y in zip(post['rows'], pre['rows']))
         _v('scale-touches-other-column' if others else 'scale-column-value', f'scale_column({column!r}, {scale}): {sh.diff(post, want)}')
 
@@ -213,7 +222,11 @@ def post_split(self, slices, groups, OLD, result):
     gcol = pre['panel'] if pre['panel'] is not None else groups
     if gcol is not None:
         _c('split_with_groups')
-    for mech, msg in sh.judge_split(pre['data'], _frames(result), slices, gcol):
+    notes = []
+    res = sh.judge_split(pre['data'], _frames(result), slices, gcol, notes)
+    for n in notes:
+        _c(n)
+    for mech, msg in res:
         _v(mech, f'split({slices}, groups={groups!r}, panel={pre["panel"]!r}) on {len(pre["data"]["rows"])} rows: {msg}')
 
 
